@@ -6,6 +6,7 @@ use crate::engine::Ctx;
 
 pub mod c01;
 pub mod c03;
+pub mod c03x;
 pub mod c04;
 pub mod c05;
 pub mod c06;
